@@ -2,7 +2,9 @@
 """Run the registered checks against the seeded changes kept under /verif/seeded/<id>/ :
   python3 harness/seeded_eval.py [--all-props] [id ...]
 For each seeded change: make sure /repo is clean, apply patch.diff, run the quick check of the property it breaks
-(or of every claimed property with --all-props), record exit status and the VIOLATION line, and undo the patch."""
+(or of every claimed property with --all-props), record exit status and the VIOLATION line, and undo the patch.
+With --jobs=N the changes are applied in N scratch worktrees of /repo (removed afterwards) instead of /repo itself and the
+checks run against them through VERIF_REPO, in parallel (never two of the same property at once)."""
 import json
 import os
 import subprocess
@@ -21,14 +23,123 @@ def clean():
     return sh(["git", "-C", REPO, "status", "--porcelain"]).stdout.decode().strip() == ""
 
 
+def how_of(vio):
+    how = "correspondence-or-proof-broken" if vio.rstrip().endswith("no-failing-input-found") else "failing-input"
+    try:
+        rp = json.load(open(vio.split("replay=")[1].split()[0]))
+        if how != "failing-input":
+            how += ": " + ",".join(c["family"] for c in rp.get("correspondence_that_no_longer_checks") or []) + \
+                (" theorem " + str(rp["theorem_or_lemma_that_no_longer_checks"]) if rp.get("theorem_or_lemma_that_no_longer_checks") else "")
+        else:
+            how += " (%d failing points%s)" % (rp.get("count", 0), "" if rp.get("corr_ok") else "; correspondence also broken")
+    except Exception as e:  # noqa
+        how += " (replay unreadable: %s)" % e
+    return how
+
+
+def eval_in_worktree(sid, wt, claimed, all_props, serial):
+    """apply the seeded change in the scratch worktree `wt` (never in /repo) and run the checks against it"""
+    d = os.path.join(VERIF, "seeded", sid)
+    meta = json.load(open(os.path.join(d, "meta.json")))
+    sh(["git", "-C", wt, "checkout", "-q", "--", "."])
+    r = sh(["git", "-C", wt, "apply", os.path.join(d, "patch.diff")])
+    if r.returncode != 0:
+        return {"error": "patch does not apply: " + r.stdout.decode()[-300:]}
+    try:
+        env = dict(os.environ, VERIF_REPO=wt, VERIF_SEED=os.environ.get("VERIF_SEED", "20260929"))
+        if not serial:
+            # the Coq development is shared between parallel evaluations: a change that alters an extracted constant
+            # must be evaluated alone
+            c = sh(["/venv/bin/python", "-c", "import sys; sys.path.insert(0, %r); import extract_constants as E, common; "
+                    "sys.exit(0 if E.render() == open(common.COQ + '/model/Extracted.v').read() else 3)" % HERE],
+                   env=dict(env, PYTHONPATH=wt, PYTHONHASHSEED="0"))
+            if c.returncode != 0:
+                return None
+        props = claimed if all_props else [p for p in [meta["property"]] + meta.get("also_check", []) if p in claimed]
+        res = {}
+        for p in props:
+            rr = sh(["python3", os.path.join(HERE, "check.py"), "--property", p, "--tier", "quick"], cwd=VERIF, env=env)
+            vio = [l for l in rr.stdout.decode().split("\n") if l.startswith("VIOLATION")]
+            # the replay file name is shared by evaluations of the same property: read it now
+            res[p] = {"exit": rr.returncode, "violation": vio[0] if vio else None, "how": how_of(vio[0]) if vio else None}
+        return {"property": meta["property"], "checks": res,
+                "detected": any(v["exit"] == 1 and v["violation"] for v in res.values()),
+                "detected_by_own_property": bool(res.get(meta["property"], {}).get("violation"))}
+    finally:
+        sh(["git", "-C", wt, "checkout", "-q", "--", "."])
+
+
+def main_parallel(ids, jobs, claimed, all_props, rpath, results):
+    """one scratch worktree per job; evaluations of the SAME property never overlap (they share replay/evidence paths)"""
+    import queue
+    import threading
+    lock = threading.Lock()
+    busy_props = set()
+    pending = list(ids)
+    deferred = []
+
+    def worker(n):
+        wt = "/tmp/doctrans-seedeval-%d" % n
+        sh(["git", "-C", REPO, "worktree", "remove", "--force", wt])
+        assert sh(["git", "-C", REPO, "worktree", "add", "--detach", "-q", wt, "HEAD"]).returncode == 0
+        try:
+            while True:
+                with lock:
+                    sid = next((s for s in pending if s.split("-")[0] not in busy_props), None)
+                    if sid is None:
+                        if not pending:
+                            return
+                    else:
+                        pending.remove(sid)
+                        busy_props.add(sid.split("-")[0])
+                if sid is None:
+                    import time
+                    time.sleep(2)
+                    continue
+                try:
+                    r = eval_in_worktree(sid, wt, claimed, all_props, serial=False)
+                finally:
+                    with lock:
+                        busy_props.discard(sid.split("-")[0])
+                with lock:
+                    if r is None:
+                        deferred.append(sid)
+                    else:
+                        results[sid] = r
+                        print(sid, json.dumps(r), flush=True)
+                        json.dump(results, open(rpath, "w"), indent=1, sort_keys=True)
+        finally:
+            sh(["git", "-C", REPO, "worktree", "remove", "--force", wt])
+
+    ts = [threading.Thread(target=worker, args=(n,)) for n in range(jobs)]
+    [t.start() for t in ts]
+    [t.join() for t in ts]
+    if deferred:
+        wt = "/tmp/doctrans-seedeval-serial"
+        sh(["git", "-C", REPO, "worktree", "remove", "--force", wt])
+        assert sh(["git", "-C", REPO, "worktree", "add", "--detach", "-q", wt, "HEAD"]).returncode == 0
+        try:
+            for sid in deferred:
+                results[sid] = eval_in_worktree(sid, wt, claimed, all_props, serial=True)
+                print(sid, "(alone)", json.dumps(results[sid]), flush=True)
+                json.dump(results, open(rpath, "w"), indent=1, sort_keys=True)
+        finally:
+            sh(["git", "-C", REPO, "worktree", "remove", "--force", wt])
+        # leave the shared development built from /repo again
+        sh(["python3", os.path.join(HERE, "setup.py")], cwd=VERIF)
+
+
 def main():
     args = [a for a in sys.argv[1:] if not a.startswith("--")]
+    jobs = next((int(a.split("=")[1]) for a in sys.argv[1:] if a.startswith("--jobs=")), 0)
     all_props = "--all-props" in sys.argv
     ids = args or sorted(d for d in os.listdir(os.path.join(VERIF, "seeded")) if os.path.isdir(os.path.join(VERIF, "seeded", d)))
     manifest = json.load(open(os.path.join(VERIF, "MANIFEST.json")))
     claimed = [c["property_id"] for c in manifest["checks"]]
     rpath = os.path.join(VERIF, "seeded", "RESULTS.json")
     results = json.load(open(rpath)) if os.path.exists(rpath) and args else {}
+    if jobs:
+        return main_parallel(ids, jobs, claimed, all_props, rpath, results)
     for sid in ids:
         d = os.path.join(VERIF, "seeded", sid)
         meta = json.load(open(os.path.join(d, "meta.json")))
